@@ -112,3 +112,45 @@ end
 
 end E
 end MoSql
+
+namespace MoSql
+open MoSql.Infix
+namespace E
+
+/-! ### every activation of `make_tree` inside `e` sees a well-formed, precedence-compatible tree -/
+mutual
+def okSub (cx : Ctx) : E → Bool
+  | .atom _ _ => true
+  | .paren e => okTop cx e
+  | .call _ args => okList cx args
+  | .pre _ e => okSub cx e
+  | .cast _ e _ => okSub cx e
+  | .bin _ l r => okSub cx l && okSub cx r
+  | .tern _ a b c => okSub cx a && okSub cx b && okSub cx c
+def okList (cx : Ctx) : List E → Bool
+  | [] => true
+  | e :: es => okTop cx e && okList cx es
+def okTop (cx : Ctx) (e : E) : Bool :=
+  (toW cx e).wfB cx.levels && (toW cx e).compatB && okSub cx e
+end
+
+/-! ### the demanded semantics: every operator applied to exactly its written operands -/
+def lvl (cx : Ctx) (k : Nat) : Level := cx.levels.getD k default
+
+mutual
+def sem (cx : Ctx) : E → Raw
+  | .atom _ r => r
+  | .paren e => .grp (sem cx e)
+  | .call f args => .call f.toLower (.list (semArgs cx args)) []
+  | .pre o e => (OpJson.builders cx.assoc).mkPre (lvl cx o.level) (tok o) (sem cx e)
+  | .cast o e ty => (OpJson.builders cx.assoc).mkSuf (lvl cx o.level) (sem cx e) (castTok o ty)
+  | .bin o l r => (OpJson.builders cx.assoc).mkBin (lvl cx o.level) (sem cx l) (tok o) (sem cx r)
+  | .tern o a b c =>
+    (OpJson.builders cx.assoc).mkTern (lvl cx o.level) (sem cx a) (tok o) (sem cx b) (tok2 o) (sem cx c)
+def semArgs (cx : Ctx) : List E → List Raw
+  | [] => []
+  | e :: es => .grp (sem cx e) :: semArgs cx es
+end
+
+end E
+end MoSql
